@@ -98,7 +98,7 @@ for _nm in NAMESPACE_NAMES:
 CONTEXTS = {
     "bare": "%s", "cmp-l": "%s == 1", "cmp-r": "1 == %s", "and": "%s and True", "or": "%s or False", "not": "not %s", "binop": "%s + 1",
     "list": "[%s, 1] == 2", "tuple": "(%s,) == 2", "arg": "lower(%s)", "kwarg": "field_contains(r, ['s'], strings=%s)", "str": "str(%s)",
-    "gen-elt": "any(%s for _i in [1])", "gen-iter": "any(1 for _i in %s)", "attr-base": "(%s).foo", "in": "'a' in %s", "chain": "1 < %s < 3",
+    "gen-elt": "any(%s for _i in [1])", "gen-if": "any(1 for _i in [1] if %s)", "gen-if2": "all(_i for _i in [1] if r.s == 'abc' if %s)", "gen-iter": "any(1 for _i in %s)", "attr-base": "(%s).foo", "in": "'a' in %s", "chain": "1 < %s < 3",
     "call-arg2": "field_equals(r, ['s'], [%s])", "and-r": "r.s == 'zz' and %s", "and-true": "r.s == 'abc' and %s", "or-l": "%s or True", "or-r": "r.s == 'zz' or %s",
     "or-nonetype": "%s or get_type(None) == \"<class 'NoneType'>\"", "and-none": "r.none and %s", "or-none": "r.none or %s",
 }
